@@ -17,6 +17,11 @@
  *                "mem holds exactly the payload" is mem[g_a - p0 - m] == g_val
  *                when g_a lies in the payload range; the position after the
  *                call is p0 + m + v, where the next frame starts.
+ *                The drivers are those of C17 as wrapped by
+ *                stubs/length_prefix_io.h: the value of a VARINT prefix (read
+ *                with one driver call per octet) is claimed under the switch
+ *                g_lp_dof, "single-octet reads deliver or fail"; everything
+ *                else for the unrestricted drivers.
  *
  * Callees: byte_buffer_* (C18), sink_put_chunk / source_get_chunk / sts_n
  * (C17) are used through their contracts; the codecs of binary-format.h (C15)
@@ -168,7 +173,7 @@ __CPROVER_ensures(__CPROVER_return_value <= 0)
 /* ---- chunk lists ---------------------------------------------------------- */
 
 /* Ghost prefix sums of the unread counts (set up by the harness, described by
- * LP_SUMS_OK in `requires`): g_lp_sum[i] is the number of unread octets in the
+ * LP_CHUNKS_OK in `requires`): g_lp_sum[i] is the number of unread octets in the
  * chunks active .. i-1.  The designated payload of a chunk list is the
  * concatenation of the unread parts from `active` on; octet t of it lies in
  * the chunk c with g_lp_sum[c] <= t < g_lp_sum[c+1], at data[offset + t -
@@ -180,17 +185,27 @@ __CPROVER_ensures(__CPROVER_return_value <= 0)
 #endif
 extern size_t g_lp_sum[9]; /* LP_CMAX + 1 <= 9 slots in use */
 extern size_t g_lp_c;
+/* for the encoder into a sink, the same in absolute sink positions:
+ * g_lp_pos[i] is the position in the sink's stream at which the unread part of
+ * chunk i starts when the frame is sent from the position at entry
+ * (g_lp_pos[active] == position at entry + prefix length); the loop contract
+ * of the emitting loop is stated on these (the driver's position IS
+ * g_lp_pos[i] at the head of iteration i) */
+extern size_t g_lp_pos[9];
 
 #define LP_CH(oc, i) ((oc)->chunk[LP_CL((i), (oc)->chunks)])
 #define LP_CH_REST(oc, i) (LP_CH(oc, i).used - LP_CH(oc, i).offset)
 /* chunk i, if it is one of the list's unread chunks, is a well-formed buffer
  * (offset <= used <= size, readable memory that is not part of the ghost
- * state), and the ghost sums add up without wrapping (the designated octets
+ * state; BYTE_BUFFER(p, 0), size 0 with any pointer, is an empty chunk), and
+ * the ghost sums add up without wrapping (the designated octets
  * number fewer than 2^64); the last conjunct, every partial sum is at most the
  * total, follows from the others and is spelt out for the solver */
 #define LP_CHUNK_OK(oc, i) \
   IMPLIES((oc)->active <= (size_t)(i) && (size_t)(i) < (oc)->chunks, \
-    BB_WF(&LP_CH(oc, i)) && __CPROVER_r_ok(LP_CH(oc, i).data, LP_CH(oc, i).size) && LP_SEP(LP_CH(oc, i).data) \
+    LP_CH(oc, i).offset <= LP_CH(oc, i).used && LP_CH(oc, i).used <= LP_CH(oc, i).size \
+    && IMPLIES(LP_CH(oc, i).size > 0u, LP_CH(oc, i).data != NULL \
+         && __CPROVER_r_ok(LP_CH(oc, i).data, LP_CH(oc, i).size) && LP_SEP(LP_CH(oc, i).data)) \
     && g_lp_sum[(i) + 1] == g_lp_sum[i] + LP_CH_REST(oc, i) && g_lp_sum[(i) + 1] >= g_lp_sum[i] \
     && g_lp_sum[(i) + 1] <= LP_TOTAL(oc))
 #define LP_CHUNKS_OK(oc) \
@@ -201,12 +216,6 @@ extern size_t g_lp_c;
    && LP_CHUNKS_EACH(oc))
 /* total number of designated octets */
 #define LP_TOTAL(oc) (g_lp_sum[LP_CL((oc)->chunks, LP_CMAX + 1)])
-/* payload octet t (t < total) of the list, seen through the observed chunk */
-#define LP_IN_CHUNK(oc, c, t) ((oc)->active <= (c) && (c) < (oc)->chunks \
-   && g_lp_sum[LP_CL((c), LP_CMAX)] <= (t) && (t) < g_lp_sum[LP_CL((c), LP_CMAX) + 1])
-#define LP_CHUNK_OCTET(oc, c, t) \
-  (LP_CH(oc, c).data[LP_CH(oc, c).offset + ((t) - g_lp_sum[LP_CL((c), LP_CMAX)])])
-
 #if LP_CMAX == 2
 #define LP_CHUNKS_EACH(oc) (LP_CHUNK_OK(oc, 0) && LP_CHUNK_OK(oc, 1))
 #elif LP_CMAX == 3
@@ -223,8 +232,44 @@ extern size_t g_lp_c;
 #error "LP_CMAX must be 2, 3, 4, 6 or 8"
 #endif
 
+/* the ghost positions of a list that is framed with kind k from the sink's
+ * current position: g_lp_pos[active] is behind the prefix, consecutive chunks
+ * are adjacent, nothing wraps (a stream is shorter than 2^64 octets, as in
+ * C17); "every chunk ends at or before the frame's end" and "the frame's end
+ * is payload start + total" follow from the recurrences (target
+ * lemma_chunk_ghosts) and are spelt out for the solver */
+#define LP_END(oc) (g_lp_pos[LP_CL((oc)->chunks, LP_CMAX + 1)])
+#define LP_START(oc) (g_lp_pos[LP_CL((oc)->active, LP_CMAX + 1)])
+#define LP_CHUNK_POS_OK(oc, i) \
+  IMPLIES((oc)->active <= (size_t)(i) && (size_t)(i) < (oc)->chunks, \
+    g_lp_pos[(i) + 1] == g_lp_pos[i] + LP_CH_REST(oc, i) && g_lp_pos[(i) + 1] >= g_lp_pos[i] \
+    && g_lp_pos[(i) + 1] <= LP_END(oc))
+#define LP_CHUNKS_POS_OK(k, oc) \
+  (LP_START(oc) == (size_t)(g_snk_pos + lp_spec_len((k), LP_TOTAL(oc))) && LP_START(oc) >= g_snk_pos \
+   && LP_END(oc) == (size_t)(LP_START(oc) + LP_TOTAL(oc)) && LP_END(oc) >= LP_START(oc) \
+   && LP_CHUNKS_POS_EACH(oc))
+#if LP_CMAX == 2
+#define LP_CHUNKS_POS_EACH(oc) (LP_CHUNK_POS_OK(oc, 0) && LP_CHUNK_POS_OK(oc, 1))
+#elif LP_CMAX == 3
+#define LP_CHUNKS_POS_EACH(oc) (LP_CHUNK_POS_OK(oc, 0) && LP_CHUNK_POS_OK(oc, 1) && LP_CHUNK_POS_OK(oc, 2))
+#elif LP_CMAX == 4
+#define LP_CHUNKS_POS_EACH(oc) (LP_CHUNK_POS_OK(oc, 0) && LP_CHUNK_POS_OK(oc, 1) && LP_CHUNK_POS_OK(oc, 2) && LP_CHUNK_POS_OK(oc, 3))
+#elif LP_CMAX == 6
+#define LP_CHUNKS_POS_EACH(oc) (LP_CHUNK_POS_OK(oc, 0) && LP_CHUNK_POS_OK(oc, 1) && LP_CHUNK_POS_OK(oc, 2) && LP_CHUNK_POS_OK(oc, 3) \
+   && LP_CHUNK_POS_OK(oc, 4) && LP_CHUNK_POS_OK(oc, 5))
+#elif LP_CMAX == 8
+#define LP_CHUNKS_POS_EACH(oc) (LP_CHUNK_POS_OK(oc, 0) && LP_CHUNK_POS_OK(oc, 1) && LP_CHUNK_POS_OK(oc, 2) && LP_CHUNK_POS_OK(oc, 3) \
+   && LP_CHUNK_POS_OK(oc, 4) && LP_CHUNK_POS_OK(oc, 5) && LP_CHUNK_POS_OK(oc, 6) && LP_CHUNK_POS_OK(oc, 7))
+#endif
+/* sink position p holds an octet of the observed chunk c; the octet */
+#define LP_POS_IN_CHUNK(oc, c, p) ((oc)->active <= (c) && (c) < (oc)->chunks \
+   && g_lp_pos[LP_CL((c), LP_CMAX)] <= (p) && (p) < g_lp_pos[LP_CL((c), LP_CMAX) + 1])
+#define LP_POS_OCTET(oc, c, p) \
+  (LP_CH(oc, c).data[LP_CH(oc, c).offset + ((p) - g_lp_pos[LP_CL((c), LP_CMAX)])])
+
 /* p is not (part of) the ghost state of this unit or of the endpoint stubs */
 #define LP_SEP(p) (EP_SEP(p) && !__CPROVER_same_object((p), g_lp_sum) && !__CPROVER_same_object((p), &g_lp_c) \
+   && !__CPROVER_same_object((p), g_lp_pos) \
    && !__CPROVER_same_object((p), &g_k) && !__CPROVER_same_object((p), &g_j))
 
 #define LP_LPC_OK(lpc) (__CPROVER_rw_ok((lpc), sizeof(LengthPrefixChunks)))
@@ -337,8 +382,17 @@ __CPROVER_ensures(IMPLIES(n <= LP_REST_O(b) && LP_FITS_TOTAL(k, n) && n >= 1u,
         g_snk_val == lp_spec_octet((k), LP_TOTAL(oc), LP_B_REL))
 /* ... or the payload's, seen through the observed chunk */
 #define LP_SNK_CHUNKS_PAYLOAD(k, oc) \
-  IMPLIES(LP_B_IN_PAYLOAD(k, LP_TOTAL(oc)) && LP_IN_CHUNK(oc, g_lp_c, LP_B_PAY(k, LP_TOTAL(oc))), \
-        g_snk_val == LP_CHUNK_OCTET(oc, g_lp_c, LP_B_PAY(k, LP_TOTAL(oc))))
+  IMPLIES(g_b < g_snk_pos && LP_POS_IN_CHUNK(oc, g_lp_c, g_b), g_snk_val == LP_POS_OCTET(oc, g_lp_c, g_b))
+/* counts in terms of the frame's end (== position at entry + prefix length +
+ * total, LP_CHUNKS_POS_OK) */
+#define LP_SNK_CHUNKS_WITHIN(oc) (g_snk_pos >= __CPROVER_old(g_snk_pos) && g_snk_pos <= __CPROVER_old(LP_END_RAW(oc)))
+#define LP_SNK_CHUNKS_DONE(k, oc, ret) \
+  ((size_t)(ret) == lp_spec_len((k), LP_TOTAL(oc)) + LP_TOTAL(oc) && g_snk_pos == __CPROVER_old(LP_END_RAW(oc)) \
+   && g_snk_nhard == __CPROVER_old(g_snk_nhard))
+#define LP_SNK_CHUNKS_BROKE(oc, ret) \
+  ((ret) == g_snk_err && !EP_TRANSIENT(ret) && g_snk_nhard == (size_t)(__CPROVER_old(g_snk_nhard) + 1u) \
+   && g_snk_pos < __CPROVER_old(LP_END_RAW(oc)))
+#define LP_END_RAW(oc) g_lp_pos[(oc)->chunks]
 
 /* The proof of this contract is split over three targets (LP_PART 1..3), each
  * enforcing a part of the ensures clauses (and all of the frame / safety
@@ -363,15 +417,16 @@ __CPROVER_ensures(IMPLIES(n <= LP_REST_O(b) && LP_FITS_TOTAL(k, n) && n >= 1u,
 
 ssize_t flenp_chunks_to_sink(const LengthPrefixKind k, Sink *sink, ByteChunks *oc)
 __CPROVER_requires(LP_KIND_OK(k) && LP_STATIC_OK() && EP_SINK_OK(sink) && LP_CHUNKS_OK(oc))
+__CPROVER_requires(IMPLIES(LP_FITS_TOTAL(k, LP_TOTAL(oc)), LP_CHUNKS_POS_OK(k, oc)))
 __CPROVER_assigns(LP_SNK_ASSIGNS)
 /* refusal, counts, result */
 LP_ENSURES_COUNT(IMPLIES(!LP_FITS_TOTAL(k, LP_TOTAL(oc)), __CPROVER_return_value == -EINVAL && LP_SNK_UNTOUCHED))
 LP_ENSURES_COUNT(IMPLIES(LP_CHUNKS_FRAMED(k, oc), __CPROVER_return_value != 0))
-LP_ENSURES_COUNT(IMPLIES(LP_CHUNKS_FRAMED(k, oc), LP_SNK_WITHIN(k, LP_TOTAL(oc))))
+LP_ENSURES_COUNT(IMPLIES(LP_CHUNKS_FRAMED(k, oc), LP_SNK_CHUNKS_WITHIN(oc)))
 LP_ENSURES_COUNT(IMPLIES(LP_CHUNKS_FRAMED(k, oc) && __CPROVER_return_value > 0,
-    LP_SNK_DONE(k, LP_TOTAL(oc), __CPROVER_return_value)))
+    LP_SNK_CHUNKS_DONE(k, oc, __CPROVER_return_value)))
 LP_ENSURES_COUNT(IMPLIES(LP_CHUNKS_FRAMED(k, oc) && __CPROVER_return_value < 0,
-    LP_SNK_BROKE(k, LP_TOTAL(oc), __CPROVER_return_value)))
+    LP_SNK_CHUNKS_BROKE(oc, __CPROVER_return_value)))
 /* what the sink received: the prefix, nothing outside the frame */
 LP_ENSURES_PREFIX(IMPLIES(LP_CHUNKS_FRAMED(k, oc), LP_SNK_CHUNKS_PREFIX(k, oc)))
 LP_ENSURES_PREFIX(IMPLIES(LP_CHUNKS_FRAMED(k, oc), IMPLIES(!LP_B_SEEN, g_snk_val == __CPROVER_old(g_snk_val))))
